@@ -9,5 +9,5 @@ CONSTANTS
   Ops = {"read", "argv", "arrmsg", "memtok"}
 VIEW View
 INVARIANTS TypeOK Refines
-PROPERTIES DesignAgrees Normalised
+PROPERTIES DesignAgrees Normalised OnceAgrees
 CHECK_DEADLOCK FALSE
